@@ -10,7 +10,11 @@ EXTENDS PolygonOps, TraceKit
 CONSTANTS TolPer,      \* micrometres, lattice perimeters (integers of metres)
           TolArea,     \* micro-U, lattice areas (integers of U)
           AreaPerVertex, \* 1e-4 m^2 per vertex: documented bound 0.1 m^2 per vertex
-          TolPerNm     \* nm, perimeter agreement between two evaluations of the same polygon
+          TolPerNm,    \* nm, perimeter agreement between two evaluations of the same polygon
+          TolPosNm,    \* nm, an edge entered with the azimuth and length of the inverse problem ends at the vertex (inverse + direct error)
+          TolRhumbLegNm, \* nm per rhumb leg against the defining integrals
+          EvMaxArc, EvMaxLatRhumb,     \* micro-degrees: conditioning guard of the edge-versus-vertex law
+          EvGeodPerNm, EvRhumbPerNm    \* 1e-4 m^2 of area per nm of vertex displacement under that guard
 VARIABLES l, verts, hows, polyline
 
 Untouched == 2000000002
@@ -31,11 +35,13 @@ StateOK(r, vs, hs, pl) ==
   LET n == Len(vs) IN
   /\ r.num = n /\ r.same
   \* CurrentPoint: longitude compared modulo 360 (it is unrolled in polygon mode only)
+  \* ("If no points have been added, then NaNs are returned": fresh object, after Clear, after AddEdge on the empty object)
+  /\ (n = 0 => r.cur = <<NaNQ, NaNQ>>)
   /\ (n > 0 => r.cur[1] = LatQ(vs[n]) /\ Abs(((r.cur[2] - 1000000 * vs[n][2] + 180000000) % 360000000) - 180000000) <= 10)
   \* Compute, four flag combinations
   /\ \A f \in 1..4 : Match(r.comp[f], ComputeExp(vs, hs, pl, Flags[f][1], Flags[f][2]), ~pl)
   \* TestPoint == AddPoint; Compute
-  /\ \A t \in 1..6, f \in 1..2 :
+  /\ \A t \in 1..Len(TestVerts), f \in 1..2 :
        LET p == TestVerts[t]
            ambiguous == n > 0 /\ Antipodal(vs[n], p)
            nx == AddPointS(vs, hs, p)
@@ -48,6 +54,55 @@ StateOK(r, vs, hs, pl) ==
             LET nx == AddEdgeS(vs, hs, TestEdges[t][1], TestEdges[t][2])
             IN Match(o, ComputeExp(nx[1], nx[2], pl, TestFlags[f][1], TestFlags[f][2]), ~pl)
 
+Min(x, y) == IF x < y THEN x ELSE y
+
+(* KNOWN FINDING of C09 (known_findings.json, region "pro-exact-eq"): Rhumb(a, f < 0, exact = true) loses accuracy on nearly   *)
+(* east-west courses within 10 degrees of the equator (micrometres instead of nanometres; seen here as 8.6 um on the side       *)
+(* (-0.0087653946945380201, -82.43152420874685) -> (-0.0043138913860584494, 8.7185241468250751), a = 6378137, f = -1/150: exact    *)
+(* option 10146776.911595220 m, series 10146776.911586609 m, defining integral 10146776.911586603 m).  The input class is           *)
+(* computed from the inputs only: exact rhumb back end, prolate ellipsoid, a side of the polygon reaches |lat| < 10 degrees        *)
+(* (minlat in micro-degrees, 0 if a side crosses the equator).  Only the LENGTH laws that involve the exact rhumb back end       *)
+(* are suspended for this class (the area laws stay).                                                                           *)
+ProExactEq(r, minlat) == r.backend = 4 /\ r.fq < 0 /\ minlat < 10000000
+
+(* ev - edge versus vertex: "For any sequence of added vertices and/or edges ... the polygon with those vertices".  The      *)
+(* random polygon is rebuilt with some vertices entered by AddEdge(azimuth, length of the back end's own inverse problem     *)
+(* from the current point).  ev = <<area residual, perimeter residual, largest distance CurrentPoint - vertex (nm),          *)
+(* AddEdge on the empty object was a no-op and the final count is right, number of edges, longest side (micro-degrees of     *)
+(* arc, from the inputs), largest |latitude| (micro-degrees, from the inputs)>>.                                             *)
+(* The end of such an edge is the vertex to within the documented errors of one inverse and one direct solution             *)
+(* (Geodesic.hpp: 15 nm WGS84, 25 nm at |f| = 0.01; rhumb: about 10 nm) - TolPosNm.  A vertex displaced by d changes the      *)
+(* area by at most d R (tan(s1/2) + tan(s2/2)) (s1, s2 the adjacent sides as arcs), which is unbounded for nearly antipodal    *)
+(* vertices; for rhumb sides the factor grows like sec(latitude).  Hence the named guard WellConditioned: every side at most   *)
+(* EvMaxArc (120 degrees: d R 2 tan 60 <= 224e-4 m^2 per nm for R <= 6.46e6 m) and, for the rhumb back ends, every latitude     *)
+(* within EvMaxLatRhumb (80 degrees: d sec(80) (l1 + l2)/2 with sides up to 2e7 m <= 1152e-4 m^2 per nm).  The perimeter        *)
+(* changes by at most 2 d per displaced vertex.                                                                              *)
+EvOK(r) ==
+  LET ev == r.ev
+      rh == r.backend >= 3
+      WellConditioned == ev[6] <= EvMaxArc /\ (rh => ev[7] <= EvMaxLatRhumb)
+      d == Min(ev[3], TolPosNm) + 1
+      k == IF rh THEN EvRhumbPerNm ELSE EvGeodPerNm
+  IN /\ ev[4] = 1
+     /\ (ProExactEq(r, r.eq) \/ ev[3] <= TolPosNm)
+     \* (in the class ProExactEq the end of an edge may be micrometres from the vertex, so neither comparison applies)
+     /\ ((WellConditioned /\ ~ProExactEq(r, r.eq)) =>
+           /\ ev[1] <= 2 * AreaPerVertex * (r.nv + 1) + ev[5] * d * k
+           /\ ev[2] <= TolPerNm * (r.nv + 1) + 2 * ev[5] * d)
+
+(* ra - absolute reference for the rhumb back ends (series and exact option): ra = <<area residual, perimeter residual,       *)
+(* number of vertices, longitude span, largest |latitude| (micro-degrees), generator, minlat>> of a polygon inside a longitude band    *)
+(* narrower than 180 degrees (it cannot enclose a pole and every shortest rhumb side stays inside the band) against            *)
+(* - sum of the areas under its sides, S12 = int c^2 sin(xi) dlambda along the rhumb line (Rhumb.hpp, "The area under a rhumb *)
+(* line"), and the sum of the rhumb lengths, both from the defining integrals evaluated by the driver in long double.          *)
+(* Area: the documented bound per vertex for ONE evaluation; length: "about 10 nm" per rhumb line, taken with a factor 4.      *)
+RaOK(r) ==
+  r.backend >= 3 =>
+    /\ "ra" \in DOMAIN r
+    /\ r.ra[4] <= 170000000 /\ r.ra[5] <= 85000000
+    /\ r.ra[1] <= AreaPerVertex * (r.ra[3] + 1)
+    /\ (ProExactEq(r, r.ra[7]) \/ r.ra[2] <= TolRhumbLegNm * (r.ra[3] + 1))
+
 \* ---- random-polygon law records: residuals in 1e-4 m^2 and nm, tolerances from the documentation ----
 RlOK(r) ==
   LET ta == 2 * AreaPerVertex * (r.nv + 1)
@@ -57,9 +112,11 @@ RlOK(r) ==
      /\ r.shift[1] <= ta /\ r.shift[2] <= tp /\ r.shift[3] <= ta /\ r.shift[4] <= tp
      /\ r.diag[1] <= ta /\ r.diag[2] <= tp
      /\ r.test[1] <= ta /\ r.test[2] <= tp /\ r.test[3] = 1 /\ r.test[4] <= ta /\ r.test[5] <= tp
-     /\ r.xb[1] <= ta /\ r.xb[2] <= tp
+     \* (back ends 0, 1, 2 are compared among themselves; 3 with 4 and 4 with 3 - the pair contains the exact rhumb back end)
+     /\ r.xb[1] <= ta /\ ((r.backend >= 3 /\ r.fq < 0 /\ r.eq < 10000000) \/ r.xb[2] <= tp)
      /\ r.pl[1] = 1 /\ r.pl[2] <= tp
      /\ r.rng[1] = 1 /\ r.rng[2] = 1
+     /\ EvOK(r) /\ RaOK(r)
 
 Obligation(r) ==
   CASE r.e = "Reset" -> r.plflag = r.polyline
